@@ -296,6 +296,17 @@ func c03LongLines(r *ev.Run, pairs *atomic.Int64) {
 			var s board.VerifSnap
 			b.VerifSnapshotInto(&s)
 			snaps = append(snaps, s)
+			// a pass made and taken back at every ply of the line (whatever the clock has reached)
+			if !p.InCheck(int(p.Stm)) {
+				b.UndoNullMove(b.MakeNullMove())
+				pairs.Add(1)
+				var s2 board.VerifSnap
+				b.VerifSnapshotInto(&s2)
+				if d := snapEqual(&s, &s2); d != "" {
+					r.Fail("undo-null/"+d[:min(len(d), 12)], c03Case{FEN: fen, Moves: append([]string(nil), names...), Move: "0000"}, "%s after %d plies (half-move clock %d): make+undo of the null move changed the %s", fen, i, s.FiftyCnt, d)
+					break
+				}
+			}
 			em := move.Move(m.Enc())
 			revs = append(revs, b.MakeMove(em))
 			mvs = append(mvs, em)
